@@ -7,7 +7,7 @@ CONSTANTS MaxMembers, Sizes, Mode
 N15 == <<102, 105, 102, 116, 101, 101, 110, 45, 98, 121, 116, 101, 115, 45, 97>>      \* fifteen-bytes-a
 N16 == <<115, 105, 120, 116, 101, 101, 110, 45, 98, 121, 116, 101, 115, 45, 97, 98>>  \* sixteen-bytes-ab
 DB  == <<100, 101, 98, 105, 97, 110, 45, 98, 105, 110, 97, 114, 121>>                  \* debian-binary
-Names == {<<97>>, N15, N16, <<97, SP, 98>>, DB}
+Names == {<<97>>, N15, N16, <<97, SP, 98>>, DB, <<117, 115, 114, SLASH, 98, 105, 110>>, <<SLASH, 48>>}      \* ..., "usr/bin", "/0"
 Data(n) == [k \in 1..n |-> IF k % 5 = 0 THEN 10 ELSE 64 + k]
 Kind(nm, n, b) == [name |-> nm, mtime |-> <<49, 52, 51, 51, 49, 53, 51, 49, 50, 48>>, uid |-> <<48>>, gid |-> <<49, 48, 48, 48>>,
                    mode |-> <<49, 48, 48, 54, 52, 52>>, data |-> Data(n), blank |-> b]
